@@ -475,7 +475,8 @@ V('c16-field-not-reset', 'C16', 'C16.R6',
 V('c17-content-length', 'C17', 'C17.R2',
   (LSF, "        try:\n            content_len = int(content_len_str)\n        except ValueError:\n            content_len = -1\n", "        content_len = int(content_len_str)\n"), 'ValueError')
 V('c17-crlf', 'C17', 'C17.R3',
-  (LSF, "            cim_error_details = \\\n                cim_error_details.replace('\\r', ' ').replace('\\n', ' ')\n", ""), 'crlf')
+  [(LSF, "            cim_error_details = \\\n                cim_error_details.replace('\\r', ' ').replace('\\n', ' ')\n", ""),
+  (LSF, "HEADER_VALUE_SAFE_CHARS = ''.join(chr(c) for c in range(0x20, 0x7F))", "HEADER_VALUE_SAFE_CHARS = ''.join(chr(c) for c in range(0x0A, 0x7F))")], 'crlf')
 V('c17-double-response', 'C17', 'C17.R1',
   (LSF, "                    _format(\"Indication queue is full (size {0})\",\n                            listener.max_ind_queue_size))\n                return\n", "                    _format(\"Indication queue is full (size {0})\",\n                            listener.max_ind_queue_size))\n"), 'path-count')
 V('c17-no-response', 'C17', 'C17.R1',
@@ -772,3 +773,11 @@ V('c04-proplist-falsy', 'C04', 'C04.R4b',
   ('pywbem/_cim_operations.py', "    if property_list is None:\n        pass\n    elif isinstance(property_list, (list, tuple)):\n        pass", "    if not property_list:\n        property_list = None\n    elif isinstance(property_list, (list, tuple)):\n        pass"), 'truthiness-of-parameter')
 V('c10-proplist-falsy-mock', 'C10', 'C10.R9',
   ('pywbem_mock/_baseprovider.py', "        if property_list is not None:", "        if property_list:"), 'truthiness-of-propertylist')
+
+# ---- round c: C14.R9, C17.R7, C17.R3b -----------------------------------------
+V('c14-id-from-table', 'C14', 'C14.R9',
+  ('pywbem_mock/_mainprovider.py', "        return str(uuid.uuid4())", "        return str(len(self.enumeration_contexts) + 1)"), 'id-from-table')
+V('c17-mixin-order', 'C17', 'C17.R7',
+  (LSF, "class ThreadedHTTPServer(socketserver.ThreadingMixIn, HTTPServer):", "class ThreadedHTTPServer(HTTPServer, socketserver.ThreadingMixIn):"), 'mixin-order')
+V('c17-header-not-latin1', 'C17', 'C17.R3b',
+  (LSF, "            cim_error_details = quote(cim_error_details,\n                                      safe=HEADER_VALUE_SAFE_CHARS)\n", ""), 'latin1')
